@@ -1901,3 +1901,117 @@ theorem C18_setter_inherits_witness :
   decide
 
 end Utv.C18
+
+namespace Utv.C18
+
+/-! ### per-class limits: the general statement, against a specification written on the result alone
+
+The code checks every nested class against **its own** `max_depth` (cls.py:595 → `parser.make_context` passes the
+class' own options; options.py:374 checks `self.options.max_depth`), the level being counted from the root of the
+parse.  `Respects E n r` says exactly that on the result tree, by plain recursion (`levels`), without the parser's
+`exceeded`; `within` (the Boolean the relational proof runs on) is shown equivalent to it. -/
+
+theorem exceeded_false_iff (md : Option Nat) (l : Nat) :
+    exceeded md l = false ↔ ∀ m, md = some m → m ≠ 0 → l ≤ m := by
+  cases md with
+  | none => simp [exceeded]
+  | some k =>
+    simp only [exceeded, Option.some.injEq, forall_eq']
+    by_cases hk : k = 0
+    · subst hk; simp
+    · simp [hk]
+
+mutual
+theorem within_iff_respects (E : Env) : ∀ (n : Nat) (r : Res),
+    within E n r = true ↔ ∀ p ∈ levels n r, ∃ cd, E[p.1]? = some cd ∧ ∀ m, cd.maxDepth = some m → m ≠ 0 → p.2 ≤ m
+  | _, .leaf _ => by simp [within, levels]
+  | _, .none => by simp [within, levels]
+  | n, .data k fs => by
+    have ih := withinF_iff_respects E (n + 1) fs
+    simp only [within, levels, Bool.and_eq_true, List.mem_cons, forall_eq_or_imp, ih]
+    constructor
+    · rintro ⟨h1, h2⟩
+      refine ⟨?_, h2⟩
+      cases hk : E[k]? with
+      | none => simp [hk] at h1
+      | some cd =>
+        simp only [hk] at h1
+        exact ⟨cd, rfl, (exceeded_false_iff _ _).1 (by simpa using h1)⟩
+    · rintro ⟨⟨cd, hk, h1⟩, h2⟩
+      refine ⟨?_, h2⟩
+      simp [hk, (exceeded_false_iff cd.maxDepth (n + 1)).2 h1]
+  | n, .list rs => by simpa [within, levels] using withinL_iff_respects E n rs
+  | n, .tuple rs => by simpa [within, levels] using withinL_iff_respects E n rs
+  | n, .dict kvs => by simpa [within, levels] using withinK_iff_respects E n kvs
+theorem withinL_iff_respects (E : Env) : ∀ (n : Nat) (rs : List Res),
+    withinL E n rs = true ↔ ∀ p ∈ levelsL n rs, ∃ cd, E[p.1]? = some cd ∧ ∀ m, cd.maxDepth = some m → m ≠ 0 → p.2 ≤ m
+  | _, [] => by simp [withinL, levelsL]
+  | n, r :: rs => by
+    simp only [withinL, levelsL, Bool.and_eq_true, List.mem_append, within_iff_respects E n r,
+      withinL_iff_respects E n rs]
+    constructor
+    · rintro ⟨h1, h2⟩ p (hp | hp)
+      · exact h1 p hp
+      · exact h2 p hp
+    · intro h; exact ⟨fun p hp => h p (Or.inl hp), fun p hp => h p (Or.inr hp)⟩
+theorem withinF_iff_respects (E : Env) : ∀ (n : Nat) (rs : List (String × Res)),
+    withinF E n rs = true ↔ ∀ p ∈ levelsF n rs, ∃ cd, E[p.1]? = some cd ∧ ∀ m, cd.maxDepth = some m → m ≠ 0 → p.2 ≤ m
+  | _, [] => by simp [withinF, levelsF]
+  | n, (_, r) :: rs => by
+    simp only [withinF, levelsF, Bool.and_eq_true, List.mem_append, within_iff_respects E n r,
+      withinF_iff_respects E n rs]
+    constructor
+    · rintro ⟨h1, h2⟩ p (hp | hp)
+      · exact h1 p hp
+      · exact h2 p hp
+    · intro h; exact ⟨fun p hp => h p (Or.inl hp), fun p hp => h p (Or.inr hp)⟩
+theorem withinK_iff_respects (E : Env) : ∀ (n : Nat) (rs : List (Key × Res)),
+    withinK E n rs = true ↔ ∀ p ∈ levelsK n rs, ∃ cd, E[p.1]? = some cd ∧ ∀ m, cd.maxDepth = some m → m ≠ 0 → p.2 ≤ m
+  | _, [] => by simp [withinK, levelsK]
+  | n, (_, r) :: rs => by
+    simp only [withinK, levelsK, Bool.and_eq_true, List.mem_append, within_iff_respects E n r,
+      withinK_iff_respects E n rs]
+    constructor
+    · rintro ⟨h1, h2⟩ p (hp | hp)
+      · exact h1 p hp
+      · exact h2 p hp
+    · intro h; exact ⟨fun p hp => h p (Or.inl hp), fun p hp => h p (Or.inr hp)⟩
+end
+
+theorem within_eq_respects (E : Env) (n : Nat) (r : Res) : within E n r = true ↔ Respects E n r :=
+  within_iff_respects E n r
+
+/-- **The depth limit is exact, per class** (general declarations: every class its own `max_depth` or none).
+Result-wise: (1) what is accepted is accepted without limits too and every instance of its result sits within the
+limit of its own class; (2) a value that parses to `r` without limits is accepted as `r` under the limits **iff**
+every instance of `r` sits within the limit of its own class (`Respects`, levels counted from the root of the parse). -/
+theorem C18_limit_exact (W : World) (Q : Quirks) (hQ : Q.falsyRoute = false) (E : Env) (fuel : Nat)
+    (c : Ctx) (T : Ty) (v : Val) :
+    (∀ r, (parse W Q E fuel c T v).1 = .ok r →
+        Respects E c.depth r ∧ (parse W Q (unlimited E) fuel c T v).1.isOk = true) ∧
+    (∀ r, (parse W Q (unlimited E) fuel c T v).1 = .ok r →
+        ((parse W Q E fuel c T v).1 = .ok r ↔ Respects E c.depth r)) := by
+  constructor
+  · intro r h
+    exact ⟨(within_eq_respects E _ r).1 (C18_limit_sound W Q hQ E fuel c T v r h),
+      C18_limit_monotone W Q hQ E fuel c T v r h⟩
+  · intro r h
+    constructor
+    · intro h'; exact (within_eq_respects E _ r).1 (C18_limit_sound W Q hQ E fuel c T v r h')
+    · intro hr; exact C18_limit_complete W Q hQ E fuel c T v r h ((within_eq_respects E _ r).2 hr)
+
+/-- … and on verdicts, when no union has two container alternatives: a value is accepted **iff** it is accepted without
+limits and every instance of each limited class sits within that class' own limit. -/
+theorem C18_limit_exact_iff (W : World) (Q : Quirks) (hQ : Q.falsyRoute = false) (E : Env) (hE : envUnamb E = true)
+    (fuel : Nat) (c : Ctx) (T : Ty) (hT : unamb T = true) (v : Val) :
+    (parse W Q E fuel c T v).1.isOk = true ↔
+      ∃ r, (parse W Q (unlimited E) fuel c T v).1 = .ok r ∧ Respects E c.depth r := by
+  constructor
+  · intro h
+    obtain ⟨r, hr⟩ := (isOk_true_iff _).1 h
+    exact ⟨r, C18_limit_same_reading W Q hQ E hE fuel c T hT v r hr,
+      (within_eq_respects E _ r).1 (C18_limit_sound W Q hQ E fuel c T v r hr)⟩
+  · rintro ⟨r, hr, hres⟩
+    rw [((C18_limit_exact W Q hQ E fuel c T v).2 r hr).2 hres]; rfl
+
+end Utv.C18
